@@ -446,9 +446,21 @@ end
 /-- `BaseSpec.validate_schema` does not raise: no ValidationError and no TypeError. -/
 def accepts (s : Schema) (j : JVal) : Bool := (validate s j).clean
 
+def JVal.isObj : JVal → Bool
+  | .obj _ => true
+  | _ => false
+
 /-- `BaseSpecList.__init__` (TaskSpecList, WorkflowSpecList, ActionSpecList): the members of the
-    section that get a specification object: `for k, v in data.items(): if k != 'version': …`. -/
+    section that get a specification object:
+    `for k, v in data.items(): if k != 'version' or isinstance(v, dict): …` (since repo patch 27; before,
+    `if k != 'version'`: a task named `version` was dropped).  The skipped entry is the marker
+    `version: '2.0'` that WorkbookSpec injects into its `actions` / `workflows` sections. -/
 def specListMembers (kvs : List (Key × JVal)) : List (Key × JVal) :=
+  kvs.filter (fun kv => kv.1 != Key.s "version" || kv.2.isObj)
+
+/-- `BaseListSpec.__init__` (WorkflowListSpec, ActionListSpec): `if k != 'version'` — here `version` is
+    the version of the document itself (required by the schema, a string or a number). -/
+def listSpecMembers (kvs : List (Key × JVal)) : List (Key × JVal) :=
   kvs.filter (fun kv => kv.1 != Key.s "version")
 
 end Mistral.Schema
